@@ -94,6 +94,15 @@ pub fn check_value(v: &RVal, acc: &mut Acc) {
 pub fn spaces(tier: Tier) -> Vec<Space<'static>> {
     let mut sp: Vec<Space> = vec![];
     {
+        // documents that are just one string, including strings that spell JSON documents
+        let mut whole: Vec<String> = univ::sstr().clone();
+        for v in univ::d2().iter() {
+            whole.push(refmodel::text::print(v));
+        }
+        whole.push(" {} ".into());
+        sp.push(Space::new("whole-document strings (SSTR and the text of every D2 document)", whole.len() as u64, move |i, acc| check_value(&RVal::Str(whole[i as usize].clone()), acc)));
+    }
+    {
         // trees holding a SIGNED zero (what `Value::from(0i64)` or the text `-0` gives): encoded as the
         // one zero form, converted to serde_json's 0 and back to an unsigned zero - equal to the original
         let z = RVal::Num(RNum::I(0));
